@@ -118,6 +118,12 @@ class FeedAnimals(Contract):
             f_after = f - from_feed / p["ef"]
             bal = a["animals"][k].NE_balance.kcals
             out[f"species{k}_served_after_those_before_it"] = Implies(need > 0, bal == need - from_grass - from_feed)
+            # the head count reported as fed is THIS feeding's (whatever an earlier month left in population_fed)
+            fed = a["animals"][k].population_fed
+            delivered = from_grass + from_feed
+            out[f"species{k}_fed_count_is_this_months"] = Implies(need > 0, And(
+                fed >= 0, fed <= p["herd"], Implies(delivered == need, fed == p["herd"]),
+                Implies(delivered < need, Abs(fed - p["herd"] * delivered / need) <= V(1) / 2)))
             g, f = If(need > 0, g_after, g), If(need > 0, f_after, f)
         out["leftover_feed_returned"] = And(res[0].kcals == f, res[1].kcals == g)
         out["leftovers_within_supplies"] = And(res[0].kcals >= 0, res[0].kcals <= a["f0"], res[1].kcals >= 0, res[1].kcals <= a["g0"])
